@@ -430,8 +430,101 @@ def plan_models_given(doc: dict, man: dict, args: dict) -> list:
     return acts
 
 
+def plan_defaults(doc: dict, man: dict, args: dict) -> list:
+    """Construct every component model with only its required arguments (defaults take effect) and list enum members."""
+    rng = random.Random(args.get("seed", 0))
+    tok = docs.Tok(rng)
+    comps = comps_of(doc)
+    acts = []
+    for name, schema in comps.items():
+        ref = f"/components/schemas/{name}"
+        ent = (man.get("refs") or {}).get(ref)
+        if not ent:
+            continue
+        if ent["kind"] in ("EnumProperty", "LiteralEnumProperty") and isinstance(schema.get("enum"), list):
+            acts.append({"a": "enum_info", "cls": ent["cls"], "x": {"ref": ref, "values": [v for v in schema["enum"] if v is not None]}})
+        if ent["kind"] != "ModelProperty" or ent["cls"] not in man["models"] or not docs.is_objectish(schema, comps):
+            continue
+        m = man["models"][ent["cls"]]
+        try:
+            v = docs.instance(schema, comps, tok, "min")
+        except (docs.Bottomless, RecursionError):
+            continue
+        if not isinstance(v, dict):
+            continue
+        kwargs, okk = {}, True
+        for p in m["props"]:
+            if p["required"] and p["default"] is None:
+                if p["name"] not in v:
+                    okk = False
+                    break
+                kwargs[p["python_name"]] = to_desc(p, v[p["name"]])
+        if not okk:
+            continue
+        mo = docs.merged_object(schema, comps)
+        exp = {}
+        for p in m["props"]:
+            if p["default"] is not None and p["name"] in mo["properties"]:
+                ps = docs.narrowest(mo["properties"][p["name"]], comps)
+                dv = ps.get("default") if isinstance(ps, dict) else None
+                if isinstance(dv, str) and docs.resolve(ps, comps).get("type") == "string" and not docs.resolve(ps, comps).get("format") and "enum" not in docs.resolve(ps, comps):
+                    exp[p["name"]] = dv
+                elif isinstance(dv, str) and ps == {"default": dv}:
+                    exp[p["name"]] = dv
+        acts.append({"a": "construct", "cls": ent["cls"], "kwargs": kwargs, "x": {"ref": ref, "expect_defaults": exp, "required_values": {p["name"]: v[p["name"]] for p in m["props"] if p["required"] and p["default"] is None}}})
+    return acts
+
+
+def plan_c05(doc, man, args):
+    a = dict(args)
+    out = plan_models(doc, man, a)
+    a["import"] = False
+    out += plan_defaults(doc, man, a)
+    out += plan_ops(doc, man, a)
+    return out
+
+
+def plan_c14(doc: dict, man: dict, args: dict) -> list:
+    from .oracles.c14 import unlisted
+    acts = []
+    for key, case in (args.get("cases") or {}).items():
+        ent = (man.get("refs") or {}).get(f"/components/schemas/{key}")
+        if not ent or ent["kind"] != "ModelProperty" or ent["cls"] not in man["models"]:
+            continue
+        m = man["models"][ent["cls"]]
+        if not m["props"]:
+            continue
+        pi = m["props"][0]
+
+        def find_enum(p):
+            if p["kind"] in ("EnumProperty", "LiteralEnumProperty"):
+                return p
+            for sub in ([p["inner"]] if "inner" in p else []) + (p.get("inners") or []):
+                f = find_enum(sub)
+                if f:
+                    return f
+            return None
+        cls = ent["cls"]
+        if "values" in case:
+            ep = find_enum(pi)
+            if ep:
+                acts.append({"a": "enum_info", "cls": ep["cls"], "x": {"case": key, "what": "members"}})
+            for v in case["values"]:
+                acts.append({"a": "roundtrip", "cls": cls, "value": {"p": v}, "x": {"case": key, "what": "listed"}})
+            for v in unlisted(case["values"]):
+                acts.append({"a": "roundtrip", "cls": cls, "value": {"p": v}, "x": {"case": key, "what": "unlisted"}})
+            acts.append({"a": "roundtrip", "cls": cls, "value": {"p": None}, "x": {"case": key, "what": "null" if case.get("null") else "null_unlisted"}})
+        else:
+            c = case["const"]
+            acts.append({"a": "roundtrip", "cls": cls, "value": {"p": c}, "x": {"case": key, "what": "listed"}})
+            others = [x for x in ["zz", "", 0, 1, 7, 8, 2.5, 3.5, True, False, None, [c], {"k": c}, (c + "x") if isinstance(c, str) else c + 1] if not (type(x) is type(c) and x == c)]
+            for v in others:
+                acts.append({"a": "roundtrip", "cls": cls, "value": {"p": v}, "x": {"case": key, "what": "unlisted"}})
+    return acts
+
+
 def plan_import(doc, man, args):
     return [{"a": "import_all"}]
 
 
-PLANS = {"models": plan_models, "ops": plan_ops, "import": plan_import, "models_given": plan_models_given}
+PLANS = {"models": plan_models, "ops": plan_ops, "import": plan_import, "models_given": plan_models_given, "defaults": plan_defaults, "c05": plan_c05, "c14": plan_c14}
